@@ -392,6 +392,16 @@ fn definition_candidate(r: &mut Rng, t: &TaskCtx) -> (String, Option<&'static st
             // a head argument that is not quantified (free in the head)
             (format!("definition[d]: forall {} (fresh({head_args}, F) <-> {good_body}).", quant), Some("head-variable-not-quantified"))
         }
+        11 if r.chance(1, 2) => {
+            // ... while a quantified variable stays unused in the body (anthem only warns about
+            // that; the other conditions must be checked all the same)
+            [
+                ("definition[d]: forall X (fresh(X) <-> not fresh(1)).".to_string(), Some("body-mentions-the-defined-predicate")),
+                ("definition[d]: forall X Y (fresh(X, Y) <-> undefinedpred(X)).".to_string(), Some("body-mentions-undefined-predicate")),
+                ("definition[d1]: forall X Y (fresh(X, Y) <-> later(X)).\ndefinition[d2]: forall X (later(X) <-> X = 2).".to_string(), Some("body-mentions-later-predicate")),
+            ][r.upto(3)]
+            .clone()
+        }
         11 => (format!("definition[d]: forall {quant} (fresh({head_args}) <-> {good_body} and undefinedpred({}))).", vars[0]).replace(")))", "))"), Some("body-mentions-undefined-predicate")),
         12 => (format!("definition[d]: forall {quant} ({good_body} <-> fresh({head_args}))."), Some("defined-atom-on-the-right")),
         _ => {
